@@ -180,6 +180,8 @@ pub mod emap {
     impl<'a, V, P> Filter<'a, V, P> {
         pub uninterp spec fn src(&self) -> Seq<Option<V>>;
         pub uninterp spec fn pred(&self) -> P;
+        /// slots below pos() have been consumed (yielded or rejected)
+        pub uninterp spec fn pos(&self) -> nat;
     }
     impl<'a, V, P, F> FilterMap<'a, V, P, F> {
         pub uninterp spec fn src(&self) -> Seq<Option<V>>;
@@ -196,8 +198,39 @@ pub mod emap {
                 self.pos() == 0,
                 forall|i: int| 0 <= i < self.src().len() ==> (#[trigger] self.src()[i]).is_some(),
                 forall|i: int| 0 <= i < self.src().len() ==> pred.requires((&(i as usize, &(#[trigger] self.src()[i]).unwrap()),)),
-            ensures r.src() == self.src(), r.pred() == pred,
+            ensures r.src() == self.src(), r.pred() == pred, r.pos() == 0,
         { unimplemented!() }
+    }
+
+    /// std `Filter::next`: the next slot the predicate accepts; every slot skipped on the way was rejected
+    impl<'a, V: Clone + 'a, P: FnMut(&(usize, &'a V)) -> bool> Iterator for Filter<'a, V, P> {
+        type Item = (usize, &'a V);
+        #[verifier::external_body]
+        fn next(&mut self) -> (ret: Option<Self::Item>)
+            ensures
+                final(self).src() == old(self).src(),
+                final(self).pred() == old(self).pred(),
+                match ret {
+                    Some(kv) => old(self).pos() <= kv.0 < old(self).src().len()
+                        && Some(*kv.1) == old(self).src()[kv.0 as int]
+                        && final(self).pos() == kv.0 + 1
+                        && old(self).pred().ensures((&(kv.0, kv.1),), true)
+                        && forall|j: int| old(self).pos() <= j < kv.0 ==>
+                            old(self).pred().ensures((&(j as usize, &(#[trigger] old(self).src()[j]).unwrap()),), false),
+                    None => final(self).pos() >= old(self).src().len()
+                        && forall|j: int| old(self).pos() <= j < old(self).src().len() ==>
+                            old(self).pred().ensures((&(j as usize, &(#[trigger] old(self).src()[j]).unwrap()),), false),
+                }
+        { unimplemented!() }
+    }
+    impl<'a, V: Clone + 'a, P: FnMut(&(usize, &'a V)) -> bool> vstd::std_specs::iter::IteratorSpecImpl for Filter<'a, V, P> {
+        uninterp spec fn obeys_prophetic_iter_laws(&self) -> bool;
+        #[verifier::prophetic]
+        uninterp spec fn remaining(&self) -> Seq<(usize, &'a V)>;
+        #[verifier::prophetic]
+        uninterp spec fn will_return_none(&self) -> bool;
+        uninterp spec fn decrease(&self) -> Option<nat>;
+        uninterp spec fn peek(&self, i: int) -> Option<(usize, &'a V)>;
     }
 
     impl<'a, V: Clone + 'a, P: FnMut(&(usize, &'a V)) -> bool> Filter<'a, V, P> {
